@@ -643,7 +643,7 @@ impl BuiltInFunction {
                     l.reify(&heap.borrow()).as_list()?.len() as f64
                 )),
                 Value::String(s) => Ok(Value::Number(
-                    s.reify(&heap.borrow()).as_string()?.len() as f64
+                    s.reify(&heap.borrow()).as_string()?.chars().count() as f64,
                 )),
                 _ => Err(RuntimeError::from("argument must be a list or string")),
             },
@@ -659,9 +659,10 @@ impl BuiltInFunction {
                     let val = {
                         p.reify(&heap.borrow())
                             .as_string()?
-                            .get(0..1)
-                            .unwrap_or("")
-                            .to_string()
+                            .chars()
+                            .next()
+                            .map(String::from)
+                            .unwrap_or_default()
                     };
 
                     Ok(heap.borrow_mut().insert_string(val))
@@ -685,9 +686,9 @@ impl BuiltInFunction {
                     let val = {
                         s.reify(&heap.borrow())
                             .as_string()?
-                            .get(1..)
-                            .unwrap_or("")
-                            .to_string()
+                            .chars()
+                            .skip(1)
+                            .collect::<String>()
                     };
 
                     Ok(heap.borrow_mut().insert_string(val))
@@ -712,14 +713,15 @@ impl BuiltInFunction {
                         Ok(heap.borrow_mut().insert_list(slice))
                     }
                     Value::String(_) => {
-                        let s = {
+                        let chars: Vec<char> = {
                             let borrowed_heap = &heap.borrow();
-                            args[0].as_string(borrowed_heap)?.to_string()
+                            args[0].as_string(borrowed_heap)?.chars().collect()
                         };
 
-                        s.get(start..end)
+                        chars
+                            .get(start..end)
                             .map_or(Err(RuntimeError::from("index out of bounds")), |s| {
-                                Ok(heap.borrow_mut().insert_string(s.to_string()))
+                                Ok(heap.borrow_mut().insert_string(s.iter().collect()))
                             })
                     }
                     _ => Err(RuntimeError::from("argument must be a list or string")),
